@@ -1,5 +1,6 @@
 """C19 — exported connection and subscription gauges equal reality."""
 from props import brokerprops as B
+from common import unjbytes as common_unj
 
 LEVEL = 'proof'
 ASSUMPTIONS = B.ASSUMPTIONS + ['prometheus_client gauges/counters are read through collect(); the per-identity clause is checked by '
@@ -16,13 +17,23 @@ PLAN = [(120, 3000, dict(profile='mixed', faults=0.1, nops=10), False),
 
 
 def gauge_oracle(case, d):
+    import judge as J
     made = 0
     single_auth = True
     auths = {}
+    fed = {}
     for k, rec in enumerate(d.trace):
         ev = rec['ev']
         if ev[0] == 'C' and rec['delivered']:
             made += 1
+        if ev[0] == 'D' and rec['delivered']:
+            # "connections authenticate once": decided from what the connection SENT (a second OP_AUTH may sit in
+            # the same chunk as the first, so per-event snapshots of the identity are not enough)
+            fed.setdefault(ev[1], []).append(common_unj(ev[2]))
+            if sum(1 for op, _ in J.arrived_frames(fed[ev[1]]) if op == 2) > 1:
+                single_auth = False
+        if ev[0] == 'R':
+            single_auth = single_auth and True
         g = rec['gauges']
         snap = rec['snap']
         nopen = sum(1 for s in snap.values() if s['open'])
